@@ -81,7 +81,7 @@ Print Assumptions unspaced_tokens_safe.
 (* Printing is idempotent from the first round on, for every tree (parsed or not): the re-parsed tree prints to the
    same bytes, and a second round leaves the tree unchanged. *)
 Theorem print_idempotent : forall e, print_js (ng e) = print_js e /\ ng (ng e) = ng e.
-Proof. intros e. split; [apply print_idempotent_proof|apply ng_ng]. Qed.
+Proof. exact print_idempotent_both_proof. Qed.
 Print Assumptions print_idempotent.
 
 (* String / template / regexp / numeric literals (LiteralExpr data, the chunks of TemplateExpr) and preserved comments
